@@ -150,7 +150,7 @@ class Gen:
         if k < 0.93 and self.profile != "poly":
             fn = self.rng.choice(UNARY_VEC)
             return FN[fn](base + 0)               # VectorExpression of UnaryOps
-        A = np.array([[float(self.rng.choice([0, 1, 2, -1])) for _ in range(n)] for _ in range(self.rng.randint(1, 3))])
+        A = np.array([[float(self.rng.choice([0, 1, 2, -1])) for _ in range(n)] for _ in range(n if size is not None else self.rng.randint(1, 3))])
         return A @ base                            # MatrixVectorProduct (size = rows)
 
     def reduction(self, depth):
